@@ -592,6 +592,33 @@ def passing(params, ret):
     return out, 6 - gpr, 8 - sse
 
 
+def last_gpr_int_sse_struct(params, ret):
+    """libffi 3.4.4 (x86-64) copies the whole remaining struct (not 8 bytes) into the GPR slot of
+    an INTEGER eightbyte; when a by-value struct classified [INTEGER, SSE] gets the LAST integer
+    register (r9) the excess bytes land in the slot of xmm0.  True when a signature has that
+    shape (the damage is visible only if xmm0 carries an argument)."""
+    gpr = 6
+    if ret is not None and is_rec(ret) and py_layout(ret)[0] > 16:
+        gpr -= 1
+    sse = 8
+    for t in params:
+        if is_rec(t):
+            cls = eightbyte_classes(t)
+            if cls == ["MEMORY"]:
+                continue
+            ni, ns = cls.count("INTEGER"), cls.count("SSE")
+            if ni <= gpr and ns <= sse:
+                if cls == ["INTEGER", "SSE"] and gpr == 1:
+                    return True
+                gpr -= ni
+                sse -= ns
+        elif t in "fd":
+            sse = max(0, sse - 1)
+        else:
+            gpr = max(0, gpr - 1)
+    return False
+
+
 def sig_class(case):
     """coarse, seed-independent class of a signature (prefix of violation keys)"""
     if case.libmode != "ok":
@@ -725,6 +752,11 @@ def generate(rng, tier):
         params = [rand_leaf(rng) for _ in range(rng.randrange(0, 5))]
         cases.append(_mk(cid(), "missing-lib", rng, params, rand_ret(rng), "ffi_fail", "missing-lib"))
         cases.append(_mk(cid(), "missing-symbol", rng, params, rand_ret(rng), "ffi_fail", "missing-symbol"))
+    # 7. a by-value struct classified [INTEGER, SSE] that receives the last integer register
+    for _ in range(4 * scale):
+        t = rng.choice([rec("l", "f"), rec("i", "d"), rec("c", "f", "f"), rec("p", "d"), rec("i", "i", "f")])
+        lead = [rng.choice("fd")] + [rng.choice("ilp") for _ in range(5)]
+        cases.append(_mk(cid(), "struct-last-gpr", rng, lead + [t], rng.choice("ildf")))
     #    nil string argument at every position among scalars
     for ar in range(1, 7):
         for pos in range(ar):
